@@ -152,7 +152,15 @@ def loadBias (fresh saved : Bias α) : Bias α :=
       stage := if (p.targetCenters.isSome || p.chgK) && p.nstages ≠ 0 then s.stage else s0.stage,
       accWork := if p.outputWork then s.accWork else s0.accWork,
       restraintFE := if p.chgK && p.nstages ≠ 0 then s.restraintFE else s0.restraintFE }
+  | .mtd idx p _, .mtd _ _ s => .mtd idx p (metaLoaded p s)
   | f, _ => f
+
+/-- writing a state has a side effect on running metadynamics biases: pending hills are projected onto the grids -/
+def sysFlush (m : Sys α) : Sys α :=
+  { m with biases := m.biases.map fun (nb : String × Bias α) =>
+      match nb.2 with
+      | .mtd idx p s => (nb.1, .mtd idx p (metaFlush p s))
+      | b => (nb.1, b) }
 
 /-- a fresh instance configured like `fresh` resumes from `saved`: step counter and per-bias data -/
 def sysLoad (fresh saved : Sys α) : Sys α :=
